@@ -86,7 +86,7 @@ def run(ctx, R, tier):
                      "reader of that field and every site that may run user code", floor=8)
     R.rule("C12-R2", "handleRequest: every context field is stored from the request on all paths from the receive to any dispatch site", floor=7)
     R.rule("C12-R3", "oneway snapshot: from_global restores every field of __init__; snapshot taken in the constructor, restored in run() before the target", floor=3)
-    R.rule("C12-R4", "_sendExceptionResponse builds its own annotation dict (fresh copy) before merging and sending", floor=1)
+    R.rule("C12-R4", "_sendExceptionResponse builds its own annotation dict (fresh copy) before merging and sending; what the annotations() hook returns is only read", floor=3)
     R.rule("C12-R6", "every received message owns a fresh annotations dict (the client hands it to the context as response annotations)", floor=2)
     R.rule("C12-R5", "client: the reply's annotations are assigned unconditionally, after the sequence check, on every path to a reply-carrying exit", floor=3)
 
@@ -270,6 +270,43 @@ def run(ctx, R, tier):
             ok = False
             why = "_sendExceptionResponse reads current_context.response_annotations"
     R.check(ok, "C12-R4", "_sendExceptionResponse|own-dict", "error replies carry a dict built inside the function", f.loc(sm[0]), why)
+
+    # the annotations() hook is the application's: what it returns may be one dict object kept by the application and returned every time. The daemon reads it
+    # (merges it INTO a dict of its own); it never writes into it, returns it as the reply's annotations or keeps it - per-call values merged into the hook's dict
+    # would stay there and go out with every later reply to every client
+    MUTATORS = {"update", "setdefault", "pop", "popitem", "clear", "__setitem__", "__delitem__"}
+    n_hook = 0
+    for g in [x for x in p.functions.values() if x.module.name == "Pyro5.server" and not isinstance(x.node, ast.Lambda)]:
+        hook_calls = [c for c in ctx.calls_to(g, "Pyro5.server.Daemon.annotations")]
+        for c in hook_calls:
+            n_hook += 1
+            st = enclosing_stmt(c)
+            bad = None
+            par = getattr(c, "_parent", None)
+            if isinstance(st, ast.Assign) and st.value is c:
+                holders = [t.id for t in st.targets if isinstance(t, ast.Name)]
+                if len(holders) != len(st.targets):
+                    bad = "is stored into `%s`" % unparse(st.targets[0])
+                for nm in holders:
+                    for x in walk_no_nested(g.node):
+                        if isinstance(x, ast.Call) and isinstance(x.func, ast.Attribute) and x.func.attr in MUTATORS and isinstance(x.func.value, ast.Name) and x.func.value.id == nm:
+                            bad = "is modified in place (`%s`)" % unparse(x)
+                        elif isinstance(x, (ast.Assign, ast.AugAssign, ast.Delete)) and any(isinstance(t, ast.Subscript) and isinstance(t.value, ast.Name) and t.value.id == nm
+                                                                                             for t in (x.targets if hasattr(x, "targets") else [x.target])):
+                            bad = "is modified in place (`%s`)" % unparse(x)
+                        elif isinstance(x, ast.Return) and isinstance(x.value, ast.Name) and x.value.id == nm:
+                            bad = "is handed on as the reply's annotations (`%s`)" % unparse(x)
+                        elif isinstance(x, ast.Assign) and isinstance(x.value, ast.Name) and x.value.id == nm and any(not isinstance(t, ast.Name) for t in x.targets):
+                            bad = "is kept (`%s`)" % unparse(x)
+            elif isinstance(par, ast.Attribute) and par.value is c and par.attr in MUTATORS:
+                bad = "is modified in place (`%s`)" % unparse(getattr(par, "_parent", par))
+            elif isinstance(st, ast.Return) and st.value is c:
+                bad = "is handed on as the reply's annotations"
+            R.check(bad is None, "C12-R4", "%s|hook-result-read-only#%d" % (g.name, hook_calls.index(c)), "what the annotations() hook returns is merged into the daemon's own dict, never written to, returned or kept",
+                    g.loc(c), "the dict returned by the application's annotations() hook %s: with a hook that returns one long-lived dict, a response annotation set during one call "
+                    "goes out with every later reply and handshake answer, to every client" % bad)
+    if n_hook < 2:
+        raise AnalysisError("server.py: fewer call sites of the annotations() hook than expected (%d)" % n_hook)
 
     # ---------------------------------------------------------------- R6
     for fq in ("Pyro5.protocol.ReceivingMessage.__init__", "Pyro5.protocol.ReceivingMessage.add_payload"):
